@@ -197,6 +197,23 @@ theorem c06_cadence_next_advances (s d next : Int) (ts : List Int) :
       = next + (RV.Cadence.count (RV.Cadence.run RV.Cadence.intOps s d next ts).1 : Int) * (s * d) :=
   RV.Cadence.cadence_next s d next ts
 
+/-- two heartbeats at the same time (end of one `integrate()`, start of the next; rebound.c:918 and 881): the second one
+    writes nothing, provided the boundary was less than one interval past its prescribed time -/
+theorem c06_cadence_same_time_no_duplicate (s d next t : Int) (hs : s = 1 ∨ s = -1) (hfire : s * next ≤ s * t)
+    (hnl : s * t < s * next + d) :
+    RV.Cadence.hb RV.Cadence.intOps s d (RV.Cadence.hb RV.Cadence.intOps s d next t).2 t = (false, next + s * d) := by
+  have h1 : RV.Cadence.hb RV.Cadence.intOps s d next t = (true, next + s * d) := by rw [RV.Cadence.hb_int]; simp [hfire]
+  rw [h1]
+  exact RV.Cadence.hb_no_refire s d next t hs hfire hnl
+
+/-- ... and with the prescribed time a whole interval or more behind (interval shorter than a step) the second
+    heartbeat writes the same state again: the model follows the source (finding `cadence:lagging-next-duplicate`) -/
+theorem c06_cadence_lagging_duplicates (s d next t : Int) (hfire : s * next ≤ s * t) (hlag : s * (next + s * d) ≤ s * t) :
+    (RV.Cadence.hb RV.Cadence.intOps s d (RV.Cadence.hb RV.Cadence.intOps s d next t).2 t).1 = true := by
+  have h1 : RV.Cadence.hb RV.Cadence.intOps s d next t = (true, next + s * d) := by rw [RV.Cadence.hb_int]; simp [hfire]
+  rw [h1]
+  exact RV.Cadence.hb_refire_lagging s d next t hlag
+
 /-- cadence, step mode: snapshots exactly at `steps_done = first + j·step` -/
 theorem c06_cadence_step_exact (step : Nat) (hd : 0 < step) (p next : Nat) (ts : List Nat)
     (hinv : p < next) (hc : RV.Cadence.ChainStep step p ts) :
